@@ -1,7 +1,7 @@
 """C12 - Zernike fit / compose / remove are mutually inverse for any mode set."""
 import ast
 from .. import nf, bind
-from ..nf import Poly, Tup, Const, NONE, TRUE
+from ..nf import Poly, Tup, Const, NONE, TRUE, FALSE
 from ..model import AnalysisError
 from ..rules import run as analyse, returns, fmt, is_app, S, C, conds_str
 
@@ -158,8 +158,17 @@ def run(chk, repo, tier):
             ok, det = False, f'result {fmt(p.ret)} is not a least-squares solve against zernike_basis(...)'
             continue
         b = bound_of(bs[0])
+        vec = b.get('vectorize') == TRUE
+        if not vec and b.get('vectorize') in (FALSE, None):
+            # the cube flattened by hand: pinv(basis.reshape(basis.shape[0], -1)) is the vectorised basis
+            B = Poly.atom(bs[0])
+            for a in inv:
+                arg = a[2][0].single_atom() if a[2] and isinstance(a[2][0], Poly) else None
+                if arg is not None and is_app(arg, 'm:reshape') and arg[2][0] == B and len(arg[2]) == 3 and \
+                        arg[2][1] == nf.index(nf.attr(B, 'shape'), C(0)) and isinstance(arg[2][2], Poly) and arg[2][2].const_value() == -1:
+                    vec = True
         good = b.get('mask') == S('mask') and b.get('modes') == S('modes') and b.get('normalize') == S('normalize') \
-            and b.get('rho') == S('rho') and b.get('theta') == S('theta') and b.get('vectorize') == TRUE \
+            and b.get('rho') == S('rho') and b.get('theta') == S('theta') and vec \
             and ('sym', 'opd') in nf.value_atoms(p.ret)
         ok = ok and good
         det = f'basis call: ' + ', '.join(f'{k}={fmt(v)}' for k, v in b.items())
